@@ -94,6 +94,12 @@ class DagLoopWorld(QueryWorld):
         self.materialise_timelines(self.ids)
         self.dags = []
 
+    def present(self, u, v, t):
+        # nothing is present at an instant that is not a snapshot id (removal-enabled graphs)
+        if isinstance(t, Int) and t.base == "t" and all(t.k != i.k for i in self.ids) and self.shape.key(u, v) in self.dicts:
+            return False
+        return super().present(u, v, t)
+
     # -- strings ---------------------------------------------------------------------
     def eval_fstring(self, ip, parts, node):
         if len(parts) == 3 and isinstance(parts[1], Const) and parts[1].v == "_" and isinstance(parts[2], Int):
@@ -195,6 +201,30 @@ class DagLoopWorld(QueryWorld):
                 if (args[0], args[1]) not in obj.edges:
                     obj.edges.append((args[0], args[1]))
                 return NONE
+            if name == "add_edges_from" and len(args) == 1:
+                seq = ip._seq(args[0], node)
+                if seq is not None and all(isinstance(x, (TupleV, ListObj)) and len(x.items) >= 2 for x in seq):
+                    for x in seq:
+                        a, b = x.items[0], x.items[1]
+                        for y in (a, b):
+                            if y not in obj.nodes:
+                                obj.nodes.append(y)
+                        if (a, b) not in obj.edges:
+                            obj.edges.append((a, b))
+                    return NONE
+            if name == "add_nodes_from" and len(args) == 1:
+                seq = ip._seq(args[0], node)
+                if seq is not None:
+                    for y in seq:
+                        if y not in obj.nodes:
+                            obj.nodes.append(y)
+                    return NONE
+            if name == "has_edge" and len(args) == 2:
+                return Const((args[0], args[1]) in obj.edges)
+            if name in ("number_of_nodes", "order") and not args:
+                return Const(len(obj.nodes))
+            if name in ("number_of_edges", "size") and not args:
+                return Const(len(obj.edges))
             if name in ("nodes", "edges") and not args:
                 return ListObj(list(obj.nodes) if name == "nodes" else [TupleV(list(e)) for e in obj.edges])
             if name == "in_degree" and len(args) == 1:
@@ -230,8 +260,14 @@ class DagLoopWorld(QueryWorld):
                 d = DagRec()
                 self.dags.append(d)
                 return d
-            if f.tag == "module:nx.all_simple_paths" and len(args) == 3 and isinstance(args[0], DagRec):
-                return IterV([ListObj(p) for p in simple_paths(args[0], args[1], args[2])])
+            if f.tag == "module:nx.all_simple_paths" and len(args) == 3 and isinstance(args[0], DagRec) and set(kwargs) <= {"cutoff"}:
+                paths = simple_paths(args[0], args[1], args[2])
+                cut = kwargs.get("cutoff")
+                if cut is not None and not (isinstance(cut, Const) and cut.v is None):
+                    if not (isinstance(cut, Const) and isinstance(cut.v, int)):
+                        raise Unsupported(node, "all_simple_paths cutoff %r" % (cut,))
+                    paths = [p for p in paths if len(p) - 1 <= cut.v]
+                return IterV([ListObj(p) for p in paths])
             if f.tag in ("module:collections.defaultdict", "module:defaultdict") and len(args) == 1 and isinstance(args[0], TypeV) \
                     and args[0].name in ("list", "dict", "set", "int"):
                 d = DictObj()
@@ -337,7 +373,7 @@ def check_dag_and_paths(repo: Repo, rep: Report, tier="quick", which=("dag", "pa
             P = PresenceTable(shape, seed, ids)
             win = [t for t in ids if (window[0] is None or t.k >= window[0].k) and (window[1] is None or t.k <= window[1].k)]
             wit = "%s %s | root %s, v=%s, window=%s | present: %s" % (
-                cls, shape.name, root, vt, "all ids (t+1, t+2, t+4)" if window[0] is None else "[t+2,t+3] of ids t+1, t+2, t+4",
+                cls, shape.name, root, vt, "all ids (t+1, t+2, t+4)" if window[0] is None else "[t%+d,t%+d] of ids t+1, t+2, t+4" % (window[0].k, window[1].k),
                 ", ".join("%s%s%s@%s" % (k[1][0], "->" if directed else "-", k[1][1], k[2]) for k, v in sorted(seed.items(), key=str) if v) or "nothing")
             env = {"G": SelfV(), "u": NodeV(root), "v": NodeV(vt) if vt else NONE,
                    "start": window[0] if window[0] is not None else NONE, "end": window[1] if window[1] is not None else NONE}
@@ -378,7 +414,7 @@ def check_dag_and_paths(repo: Repo, rep: Report, tier="quick", which=("dag", "pa
             if "AB" in shape.nodes:
                 combos.append(("B", "A"))       # v's label is a proper prefix of another node's label
             for (root, vt) in combos:
-                for window in ((None, None), (T(2), T(3))):
+                for window in ((None, None), (T(2), T(3)), (T(3), T(4))):
                     for str_nodes in ((True,) if tier == "quick" else (True, False)):
                         for seed in _seeds(shape, ids):
                             run_case(shape, ids, root, vt, window, str_nodes, seed)
